@@ -44,3 +44,21 @@ Arguments UOr {feature}.
 Arguments UAnd {feature}.
 Arguments UInArg {feature}.
 Arguments UInConst {feature}.
+
+(* ---- function scopes (malt/operators/function_wrappers.py): the objects through which converted code hands
+   options to its callees ------------------------------------------------------------------------------------ *)
+(* the attributes of a FunctionScope that carry options *)
+Inductive sattr : Set := SAOptions | SACallopts.
+Scheme Equality for sattr.
+(* what FunctionScope.__init__(self, function_name, scope_name, options) assigns to them *)
+Inductive ssrc : Set :=
+| ScArg              (* options *)
+| ScCallOptions.     (* options.call_options() *)
+Scheme Equality for ssrc.
+(* how an entry point of generated code (`with ag__.FunctionScope(...) as fscope`, `ag__.with_function_scope(...)`)
+   obtains the scope it hands to the body *)
+Inductive sentry : Set :=
+| EnFresh                     (* a FunctionScope constructed from the entry's own options argument *)
+| EnMemo (ks : list field).   (* an instance memoised under a key made of attributes of the options *)
+(* the two entry points *)
+Inductive ekind : Set := KFunction | KLambda.
